@@ -697,10 +697,12 @@ callback_chunkedheader(void * cookie, int status)
 	if (eolpos != buflen) {
 		/*
 		 * Parse the chunk length; it's always in base 16, and allow
-		 * trailing characters to accommodate the EOL.  ${buf} is not
-		 * NUL-terminated but it does contain an EOL, so the cast is
-		 * safe.
+		 * trailing characters to accommodate chunk extensions.  ${buf}
+		 * is not NUL-terminated, so terminate the line by overwriting
+		 * the start of its EOL (which we are about to consume anyway);
+		 * otherwise the parse could run past the EOL.
 		 */
+		buf[eolpos] = '\0';
 		if (PARSENUM_EX(&clen, (const char *)buf, 0, SIZE_MAX, 16, 1)) {
 			/* Print ${buf} carefully (it's not NUL-terminated). */
 			if (eolpos <= INT_MAX)
